@@ -106,6 +106,9 @@ func (c *ctx) mapOrder() {
 							if fn := astx.Callee(info, call); fn != nil && fn.Name() == "errf" {
 								continue
 							}
+							if c.mapInsertOnly(astx.Callee(info, call)) {
+								continue // a helper that only stores into a map (`g.noteHidden(name, err)`)
+							}
 						}
 						bad = "the loop body performs an order-dependent effect: " + astx.Short(s.X)
 					case *ast.DeclStmt:
@@ -659,6 +662,43 @@ func (c *ctx) magicUseOK(fc *fileCtx, e ast.Expr) bool {
 		default:
 			return false
 		}
+	}
+	return false
+}
+
+// mapInsertOnly: fn is a function of the generator packages whose body only stores into maps (possibly creating the
+// map first): calling it once per element of an unordered collection has the same effect in every order.
+func (c *ctx) mapInsertOnly(fn *types.Func) bool {
+	if fn == nil {
+		return false
+	}
+	for _, fc := range c.files {
+		info := fc.pkg.TypesInfo
+		d := astx.DeclOfFunc(info, []*ast.File{fc.file}, fn)
+		if d == nil || d.Body == nil {
+			continue
+		}
+		if len(d.Body.List) == 0 {
+			return false
+		}
+		for _, st := range d.Body.List {
+			switch s := st.(type) {
+			case *ast.IfStmt:
+				if !isLazyInit(info, s) {
+					return false
+				}
+			case *ast.AssignStmt:
+				for _, l := range s.Lhs {
+					ix, ok := astx.Unparen(l).(*ast.IndexExpr)
+					if !ok || !isMapType(info.TypeOf(ix.X)) {
+						return false
+					}
+				}
+			default:
+				return false
+			}
+		}
+		return true
 	}
 	return false
 }
